@@ -16,3 +16,9 @@ QUIC_DEPS = ["quic"]
 # WebTransport on top of the QUIC stratum: quic-go/http3 (part of the quic copy) and webtransport-go instrumented too.
 WT_STACK = ["./p2p/transport/webtransport"]
 WT_DEPS = ["webtransport"]
+
+# Shared-TCP path (tcpreuse demultiplexing listener + sampledconn + TcpTransport.Listen) on simnet: the package is
+# instrumented, an overlay-only file adds the seam and one call in listener.go is redirected to it.
+TCPREUSE_STACK = ["./p2p/transport/tcpreuse", "./p2p/transport/tcpreuse/internal/sampledconn"]
+TCPREUSE_ADD = {"p2p/transport/tcpreuse/zz_verif_hook.go": "simhost/overlay/tcpreuse_hook.go"}
+TCPREUSE_PATCH = [("p2p/transport/tcpreuse/listener.go", "manet.Listen(listenAddr)", "verifListen(listenAddr)")]
